@@ -21,6 +21,7 @@ import (
 	"github.com/wneessen/go-mail/smtp"
 
 	"verif/internal/ev"
+	"verif/internal/faultio"
 	"verif/internal/gen"
 	"verif/internal/refsmtp"
 )
@@ -324,9 +325,110 @@ func runC07Case(r *ev.Run, c c07Case) {
 	r.Eval(fmt.Sprintf("%+v", c), true)
 }
 
+// c07SeqCase: the policy of a live Client is tightened. Dial under FirstPolicy, SetTLSPolicy(TLSMandatory), dial again
+// without closing, send when that dial succeeded. After the policy change nothing but EHLO/HELO, STARTTLS and QUIT may
+// travel in clear on any connection.
+type c07SeqCase struct {
+	FirstPolicy string `json:"first_policy"` // none | opportunistic
+	StartTLS    bool   `json:"starttls_advertised"`
+	Host        string `json:"host"`
+	CloseFirst  bool   `json:"close_before_second_dial,omitempty"`
+	Seq         bool   `json:"sequence_case"`
+}
+
+func runC07Seq(r *ev.Run, c c07SeqCase) {
+	viol := func(key, what string, obs any) {
+		r.Violate(ev.Violation{Key: key, What: what, Case: c, Observed: obs})
+	}
+	tm := gen.TLS()
+	ip := c.Host
+	if ip == "localhost" {
+		ip = "127.0.0.1"
+	}
+	ln, err := net.Listen("tcp", ip+":0")
+	if err != nil {
+		r.HarnessError("listen: " + err.Error())
+		return
+	}
+	defer ln.Close()
+	var mu sync.Mutex
+	var sessions []*refsmtp.Session
+	go func() {
+		for n := 0; ; n++ {
+			conn, err := ln.Accept()
+			if err != nil {
+				return
+			}
+			cfg := &refsmtp.Config{AllowUTF8: true, TLS: gen.ServerTLS(tm.Good, 0, 0), Caps: func(_ int, tlsOn bool) []string {
+				if c.StartTLS && !tlsOn {
+					return []string{"8BITMIME", "STARTTLS"}
+				}
+				return []string{"8BITMIME"}
+			}}
+			s := refsmtp.Serve(conn, cfg, n)
+			mu.Lock()
+			sessions = append(sessions, s)
+			mu.Unlock()
+		}
+	}()
+	port := ln.Addr().(*net.TCPAddr).Port
+	first := mail.NoTLS
+	if c.FirstPolicy == "opportunistic" {
+		first = mail.TLSOpportunistic
+	}
+	cl, err := mail.NewClient(c.Host, mail.WithPort(port), mail.WithTimeout(3*time.Second), mail.WithHELO("client.verif.example"), mail.WithTLSConfig(gen.ClientTLS(c.Host, 0, 0)), mail.WithTLSPolicy(first))
+	if err != nil {
+		r.HarnessError("C07 seq NewClient: " + err.Error())
+		return
+	}
+	ctx, cancel := context.WithTimeout(context.Background(), 10*time.Second)
+	defer cancel()
+	if err := cl.DialWithContext(ctx); err != nil {
+		r.HarnessError("C07 seq first dial: " + err.Error())
+		return
+	}
+	if c.CloseFirst {
+		_ = cl.Close()
+	}
+	cl.SetTLSPolicy(mail.TLSMandatory)
+	changed := faultio.Tick()
+	msg, _ := simpleMsg("c07s", "sender@verif.example", []string{"rcpt@verif.example"}, "quoted-printable", "confidential body\r\n")
+	dialErr := cl.DialWithContext(ctx)
+	if dialErr == nil {
+		_ = cl.Send(msg)
+		_ = cl.Close()
+		r.Count("second_dial_succeeded_under_mandatory_policy", 1)
+	} else {
+		r.Count("second_dial_refused_under_mandatory_policy", 1)
+	}
+	_ = ln.Close()
+	time.Sleep(20 * time.Millisecond)
+	mu.Lock()
+	ss := append([]*refsmtp.Session(nil), sessions...)
+	mu.Unlock()
+	for _, s := range ss {
+		s.Stop()
+	}
+	r.Count("policy_change_sequences", 1)
+	for si, s := range ss {
+		cmds, _, _ := s.Snapshot()
+		for _, cr := range cmds {
+			if cr.Tick <= changed || cr.TLS {
+				continue
+			}
+			switch cr.Verb {
+			case "EHLO", "HELO", "STARTTLS", "QUIT", "GREETING":
+			default:
+				viol("cleartext-command-after-policy-change:"+cr.Verb, fmt.Sprintf("the Client's policy was set to TLSMandatory, then connection %d received %s in clear (second dial error: %v; first policy %s, STARTTLS advertised: %t)", si, cr.Verb, dialErr, c.FirstPolicy, c.StartTLS), s.Transcript())
+			}
+		}
+	}
+	r.Eval(fmt.Sprintf("seq|%+v", c), true)
+}
+
 func runC07(r *ev.Run, rep *ev.ReplayDoc) ev.Summary {
 	sum := ev.Summary{
-		Rule: "matrix policy {mandatory, opportunistic, none, implicit} x auth type (all 13; custom = a harness mechanism without password) x host {localhost, 127.0.0.1, 127.0.0.2 (a non-localhost name reachable on loopback; certificate SANs cover all three)} x server behaviour {STARTTLS advertised or not; STARTTLS reply 220 / 454 / 502 / garbage; handshake ok / wrong-name certificate / untrusted certificate / garbage bytes} x 4 advertised AUTH lists, over real loopback TCP with the library's own dialers (tls.Dialer for implicit TLS). thorough enumerates the full matrix (minus combinations that cannot differ), quick a deterministic covering subset. The tap below the TLS layer records every byte before the first TLS record. distinct by case",
+		Rule: "matrix policy {mandatory, opportunistic, none, implicit} x auth type (all 13; custom = a harness mechanism without password) x host {localhost, 127.0.0.1, 127.0.0.2 (a non-localhost name reachable on loopback; certificate SANs cover all three)} x server behaviour {STARTTLS advertised or not; STARTTLS reply 220 / 454 / 502 / garbage; handshake ok / wrong-name certificate / untrusted certificate / garbage bytes} x 4 advertised AUTH lists, over real loopback TCP with the library's own dialers (tls.Dialer for implicit TLS). thorough enumerates the full matrix (minus combinations that cannot differ), quick a deterministic covering subset. The tap below the TLS layer records every byte before the first TLS record. Plus sequences on one live Client: dial under NoTLS / opportunistic, SetTLSPolicy(TLSMandatory), dial again (with and without Close in between), send. distinct by case",
 		Assumptions: []string{
 			"'localhost names' are localhost, 127.0.0.1, ::1; 127.0.0.2 stands for any other host",
 			"credentials are unique 16-18 character random strings; searched raw, base64 (3 alphabets), hex, and inside every base64 token of the cleartext",
@@ -335,6 +437,11 @@ func runC07(r *ev.Run, rep *ev.ReplayDoc) ev.Summary {
 		Exhaustive: r.Thorough(),
 	}
 	if rep != nil {
+		var q c07SeqCase
+		if err := json.Unmarshal(rep.Case, &q); err == nil && q.Seq {
+			runC07Seq(r, q)
+			return sum
+		}
 		var c c07Case
 		if err := json.Unmarshal(rep.Case, &c); err != nil {
 			r.HarnessError("bad replay case: " + err.Error())
@@ -401,6 +508,18 @@ func runC07(r *ev.Run, rep *ev.ReplayDoc) ev.Summary {
 		}
 		runC07Case(r, cases[i])
 	})
-	sum.Extra = map[string]any{"matrix_cells_run": len(cases)}
+	// the policy of a live Client is tightened between two dials
+	var seqs []c07SeqCase
+	for _, fp := range []string{"none", "opportunistic"} {
+		for _, st := range []bool{false, true} {
+			for _, h := range []string{"localhost", "127.0.0.2"} {
+				for _, cf := range []bool{false, true} {
+					seqs = append(seqs, c07SeqCase{FirstPolicy: fp, StartTLS: st, Host: h, CloseFirst: cf, Seq: true})
+				}
+			}
+		}
+	}
+	r.ParallelN(8, len(seqs), func(i int) { runC07Seq(r, seqs[i]) })
+	sum.Extra = map[string]any{"matrix_cells_run": len(cases), "policy_change_sequences": len(seqs)}
 	return sum
 }
